@@ -148,7 +148,7 @@ def stream_entry_assemble(hasher, file, eccfile, entry_fields, max_block_size, h
         if curpos < header_size or constantmode or entry_fields["filesize"] <= header_size: # header stage: constant rate (also for a file that was recorded with no later stage at all: past its end -- an ecc track longer than the file needs, eg because the next entrymarker was lost -- there is no range to interpolate the rate in, feature_scaling() would divide by zero)
             rate = resilience_rates[0]
         else: # later stage 2 or 3: progressive rate
-            rate = feature_scaling(curpos, header_size, entry_fields["filesize"], resilience_rates[1], resilience_rates[2]) # find the rate for the current stream of data (interpolate between stage 2 and stage 3 rates depending on the cursor position in the file)
+            rate = feature_scaling(min(curpos, entry_fields["filesize"]), header_size, entry_fields["filesize"], resilience_rates[1], resilience_rates[2]) # find the rate for the current stream of data (interpolate between stage 2 and stage 3 rates depending on the cursor position in the file). Past the recorded size (file grown under --ignore_size, or a size field read too small) there is nothing to interpolate: keep the stage 3 rate instead of extrapolating, which would end in a negative rate and a negative block size
         # From the rate, compute the ecc parameters
         ecc_params = compute_ecc_params(max_block_size, rate, hasher)
         # Extract the message block from input file, given the computed ecc parameters
